@@ -47,6 +47,8 @@ pub fn style_from(seed: u64) -> u64 {
     let p = r >> 16;
     // bits 60..62: node creation (see `nodes_born_elsewhere`); the key parameter keeps bits 8..59
     let born = (crate::rng::mix(r) & 7) << 60;
+    // bits 56..59: how keys hash (see `coarse_modulus`): five values in sixteen are coarse
+    let born = born | (((crate::rng::mix(r ^ 0x636f_6172_7365) >> 7) & 15) << 56);
     let p = p & ((1 << 44) - 1);
     born | match r % 100 {
         0..=49 => 0,
@@ -71,8 +73,53 @@ pub fn style() -> u64 {
     STYLE.load(Relaxed)
 }
 
+/// The key type every gdsl node and container of the simulators is instantiated with: a newtype
+/// over `usize` that prints and serialises like the number it wraps, with a **lawful `Hash` the
+/// simulator chooses per run**: by default exactly `usize`'s (`write_usize(k)`); in "coarse"
+/// runs `write_usize(k % m)`, m in {1, 2, 3, 5, 16} - equal keys still hash alike, but distinct
+/// keys collide under *every* hasher (the containers' ahash, a `DefaultHasher` a library may
+/// use for a fingerprint, ...). Whatever a library derives from a key's hash alone and then
+/// trusts as identity is thereby exposed; a correct library only gets slower.
+#[derive(Clone, Copy, PartialEq, Eq, PartialOrd, Ord, serde::Serialize, serde::Deserialize)]
+#[serde(transparent)]
+pub struct SimKey(pub usize);
+
+impl std::hash::Hash for SimKey {
+    fn hash<H: std::hash::Hasher>(&self, state: &mut H) {
+        match coarse_modulus() {
+            0 => state.write_usize(self.0),
+            m => state.write_usize(self.0 % m),
+        }
+    }
+}
+impl std::fmt::Display for SimKey {
+    fn fmt(&self, f: &mut std::fmt::Formatter<'_>) -> std::fmt::Result {
+        std::fmt::Display::fmt(&self.0, f)
+    }
+}
+impl std::fmt::Debug for SimKey {
+    fn fmt(&self, f: &mut std::fmt::Formatter<'_>) -> std::fmt::Result {
+        std::fmt::Debug::fmt(&self.0, f)
+    }
+}
+
+/// 0 = the key's hash is `usize`'s; otherwise keys hash as `k % m` (bits 56..59 of the style word)
+pub fn coarse_modulus() -> usize {
+    [0usize, 0, 0, 0, 0, 0, 0, 0, 0, 0, 0, 1, 2, 3, 5, 16][((STYLE.load(Relaxed) >> 56) & 15) as usize]
+}
+
 /// index -> key
-pub fn kin(i: usize) -> usize {
+pub fn kin(i: usize) -> SimKey {
+    SimKey(kin_raw(i))
+}
+
+/// key -> index
+pub fn kout(k: SimKey) -> usize {
+    kout_raw(k.0)
+}
+
+/// index -> the number the key wraps
+pub fn kin_raw(i: usize) -> usize {
     let i = i as u64;
     (match decode(STYLE.load(Relaxed)) {
         Kind::Identity => i,
@@ -85,7 +132,7 @@ pub fn kin(i: usize) -> usize {
 
 /// key -> index (keys that are no image of an index - they can only come from a document the
 /// library was given - map to a value far outside every index range)
-pub fn kout(k: usize) -> usize {
+pub fn kout_raw(k: usize) -> usize {
     let k = k as u64;
     (match decode(STYLE.load(Relaxed)) {
         Kind::Identity => k,
@@ -121,12 +168,13 @@ pub fn describe() -> Option<String> {
         Kind::Spread => Some(format!("node i has key i*{ODD:#x} mod 2^64")),
         Kind::Descending => Some("node i has key usize::MAX-i".to_string()),
     };
-    match (keys, nodes_born_elsewhere()) {
-        (None, false) => None,
-        (k, born) => Some(format!(
-            "{}{}",
+    match (keys, nodes_born_elsewhere(), coarse_modulus()) {
+        (None, false, 0) => None,
+        (k, born, m) => Some(format!(
+            "{}{}{}",
             k.unwrap_or_else(|| "node i has key i".to_string()),
-            if born { "; in the sync flavours every node was created on a thread of its own" } else { "" }
+            if born { "; in the sync flavours every node was created on a thread of its own" } else { "" },
+            if m > 0 { format!("; the key type's (lawful) Hash feeds only key % {m} to the hasher") } else { String::new() }
         )),
     }
 }
